@@ -27,6 +27,9 @@
 (*             composer: extraction configs as the template's              *)
 (*             connectionDetails x the composed resource's connection      *)
 (*             secret x XRD filter                                         *)
+(*  e2eobs     the real XR reconciler with a function that passes observed *)
+(*             connection details on, an own and a foreign-controlled      *)
+(*             composed resource, informer cache hit / miss                *)
 (* All inputs have the same record shape (unused fields hold defaults).    *)
 (***************************************************************************)
 EXTENDS ConnSecrets, Json
@@ -57,7 +60,7 @@ SrcFew == {Gone, Sec("xr", "conn", AMap), Sec("other", "conn", AMap)}
 
 NoCfgs == <<>>
 Base(f) == [fam |-> f, details |-> Empty, details2 |-> Empty, filter |-> {}, xwants |-> TRUE, cwants |-> TRUE,
-            xsec |-> Gone, csec |-> Gone, cfgs |-> NoCfgs, cdata |-> Empty]
+            xsec |-> Gone, csec |-> Gone, cfgs |-> NoCfgs, cdata |-> Empty, foreign |-> "none"]
 
 Publish == {[Base("publish") EXCEPT !.details = d, !.filter = f, !.xwants = w, !.xsec = s] :
               d \in Maps, f \in SUBSET Keys, w \in BOOLEAN, s \in XSecsFull}
@@ -94,8 +97,14 @@ E2E == {[Base("e2e") EXCEPT !.details = d, !.details2 = d2, !.filter = f, !.xwan
 \* the same through the real P&T composer: the configs become the template's connectionDetails, cdata the composed resource's secret
 E2EPT == {[Base("e2ept") EXCEPT !.cfgs = cs, !.cdata = d, !.filter = f] : cs \in CfgSeqs, d \in ExtData, f \in {{}, {AKey}}}
 
+\* observed pass-through: the XR references a composed resource of its own (connection data cdata) and one that another XR
+\* controls; the function keeps what it is shown desired and passes observed connection details on to the XR (as
+\* function-patch-and-transform does); the informer cache knows the composed resources ("cached") or not yet ("miss")
+E2EObs == {[Base("e2eobs") EXCEPT !.details = d, !.details2 = d2, !.cdata = cd, !.filter = f, !.foreign = fg] :
+             d \in FewMaps, d2 \in FewMaps, cd \in FewMaps, f \in SUBSET Keys, fg \in {"cached", "miss"}}
+
 Domain(f) == CASE f = "publish" -> Publish [] f = "propagate" -> Propagate [] f = "extract" -> Extract [] f = "e2e" -> E2E
-               [] f = "e2ept" -> E2EPT
+               [] f = "e2ept" -> E2EPT [] f = "e2eobs" -> E2EObs
 
 \* --------------------------------------------------------------------- spec
 Init == /\ \E f \in Fams : input \in Domain(f)
